@@ -5,6 +5,7 @@ package c06
 import (
 	"errors"
 	"fmt"
+	"runtime/debug"
 	"strings"
 	"time"
 
@@ -26,7 +27,8 @@ func init() {
 			"x handler context (none, try-catch, try-finally, inside catch, inside finally, handler in a caller, inside a callback's child VM, inside a module body); quick = stack fill {0, 2040..2047} x depth {1, 1022, 1023}. " +
 			"Oracle: nothing escapes Run as a panic; Run returns a value xor an error; an ordinary error inside try-catch reaches the catch block; then, on the same VM, the same script gives the same outcome again and three probe scripts give their known results. " +
 			"non-trivial = the fault is a real Go panic (callback/object panic, stack index out of range) rather than a returned error",
-		Run: run6,
+		Run:       run6,
+		MarkCases: true,
 	})
 }
 
@@ -199,6 +201,8 @@ var probes = []struct {
 }
 
 func run6(c *fw.Ctx) {
+	// a runaway Go recursion dies at 64 MiB of stack instead of 1 GiB
+	debug.SetMaxStack(64 << 20)
 	var probeBC []*ugo.Bytecode
 	for _, p := range probes {
 		bc, err := ugo.Compile([]byte(p.src), ugo.CompilerOptions{})
@@ -228,6 +232,23 @@ func run6(c *fw.Ctx) {
 					one(c, key, src, mods, k, cx, probeBC, fill > 1000 || depth > 2)
 				}
 			}
+		}
+	}
+	// self-referential containers handed to the builtins and operators that walk a value recursively: the walk must end
+	// in an error (or a value), not in a Go stack overflow, which no recovery can intercept (the worker process dies; the
+	// framework attributes the death to the marked case)
+	c.Family("cyclic-values", "array and map that contain themselves x string / copy / == / sprintf / json-free printing, at top level and inside try-catch")
+	cyc := "cyc := [0]; cyc[0] = cyc; cycm := {}; cycm.self = cycm; cyc2 := [0]; cyc2[0] = cyc2; "
+	for _, e := range []string{"string(cyc)", "string(cycm)", "copy(cyc)", "copy(cycm)", "cyc == cyc2", "sprintf(\"%v\", cyc)", "len(cyc) + len(cycm)"} {
+		for ci, cx := range contexts[:2] {
+			if !c.Next() {
+				continue
+			}
+			_ = ci
+			c.Checkpoint()
+			mainBody, _ := cx.wrap("x := " + e)
+			src := pre + cyc + mainBody + "; L(\"after\"); return \"done\""
+			one(c, fmt.Sprintf("cyclic expr=%s ctx=%s", e, cx.name), src, nil, kind{name: "cyclic", goPanic: true}, cx, probeBC, true)
 		}
 	}
 	// literal that overflows the value stack by itself
@@ -335,6 +356,7 @@ func one(c *fw.Ctx, key, src string, mods map[string]string, k kind, cx context,
 	if c.Skip(key) {
 		return
 	}
+	c.Mark(key)
 	bc, err, pan := run.Compile(src, run.Options{Modules: mods})
 	if pan != "" {
 		c.Violation(key, "compiler panics: "+pan, nil)
